@@ -158,7 +158,10 @@ class Interp:
                 pass  # a bare annotation declares a type, nothing happens at run time
             elif isinstance(s, ast.AugAssign) and isinstance(s.target, ast.Name) and isinstance(s.op, ast.Add):
                 self.env[s.target.id] = self.env[s.target.id] + self.ev(s.value)
-            elif isinstance(s, (ast.Assign, ast.AugAssign, ast.Delete)):  # subscript / attribute targets
+            elif isinstance(s, (ast.Assign, ast.AugAssign, ast.Delete, ast.AnnAssign)):  # subscript / attribute targets
+                if isinstance(s, ast.AnnAssign):  # annotated attribute / subscript target: the annotation has no effect
+                    s = ast.copy_location(ast.Assign(targets=[s.target], value=s.value), s)
+                    ast.fix_missing_locations(s)
                 try:
                     exec(compile(ast.Module(body=[s], type_ignores=[]), "<extracted>", "exec"), self.env)  # noqa: S102
                 except (IndexError, KeyError) as ex:
@@ -324,7 +327,10 @@ def _class_attr(prog: Any, cq: str, env: dict[str, Any], kw: dict[str, Any], nam
         m = c.methods.get(name)
         if m is not None:
             decos = [unparse(d) for d in m.node.decorator_list]
-            fn = Interp(module_env(prog, m.module, env, kw), **kw)._make_function(m.node)
+            menv = module_env(prog, m.module, env, kw)
+            if inst is not None:
+                menv["super"] = lambda _q=q, _i=inst: _Super(prog, _q, _i, env, kw)
+            fn = Interp(menv, **kw)._make_function(m.node)
             if "staticmethod" in decos:
                 return fn
             if "classmethod" in decos:
@@ -378,6 +384,30 @@ class Proxy:
         return object.__getattribute__(self, "_a")
 
 
+class _Super:
+    """``super()`` inside an interpreted method of class ``q``: methods of the classes after ``q`` in the MRO of the
+    receiver's class (as far as the source knows it), bound to the receiver; a method no analysed class defines is a no-op."""
+
+    def __init__(self, prog: Any, q: str, inst: Any, env: dict[str, Any], kw: dict[str, Any]):
+        self._p = (prog, q, inst, env, kw)
+
+    def __getattr__(self, name: str) -> Any:
+        prog, q, inst, env, kw = self._p
+        k = object.__getattribute__(inst, "_k") if isinstance(inst, Proxy) else None
+        cq = object.__getattribute__(k, "_p")[1] if k is not None else q
+        mro = list(prog.mro(cq))
+        rest = mro[mro.index(q) + 1:] if q in mro else list(prog.mro(q))[1:]
+        for b in rest:
+            c = prog.classes.get(b)
+            if c is not None and name in c.methods:
+                m = c.methods[name]
+                menv = module_env(prog, m.module, env, kw)
+                menv["super"] = lambda _q=b: _Super(prog, _q, inst, env, kw)
+                fn = Interp(menv, **kw)._make_function(m.node)
+                return lambda *a, **k2: fn(inst, *a, **k2)
+        return lambda *a, **k2: None
+
+
 def call_method(prog: Any, cq: str, method: str, self_obj: Any, env: dict[str, Any], *args: Any, interp_kwargs: dict[str, Any] | None = None, **kwargs: Any) -> Any:
     """Interpret ``cq.method`` (looked up over the MRO in the source) on ``self_obj`` with the given arguments."""
     for q in prog.mro(cq):
@@ -385,7 +415,9 @@ def call_method(prog: Any, cq: str, method: str, self_obj: Any, env: dict[str, A
         if c is not None and method in c.methods:
             m = c.methods[method]
             kw = dict(interp_kwargs or {})
-            fn = Interp(module_env(prog, m.module, env, kw), **kw)._make_function(m.node)
+            menv = module_env(prog, m.module, env, kw)
+            menv["super"] = lambda _q=q: _Super(prog, _q, self_obj, env, kw)
+            fn = Interp(menv, **kw)._make_function(m.node)
             decos = [unparse(d) for d in m.node.decorator_list]
             if "staticmethod" in decos:
                 return fn(*args, **kwargs)
